@@ -36,7 +36,7 @@ class Job:
                  unwind=None, label="proof", defines=None, min_post=1, min_lis=0,
                  timeout=900, tiers=("quick", "thorough"), solver=None, note="",
                  replay=None, objbits=None, extra_cbmc=(), fallback=True, maxw=None,
-                 expect_fail=(), src=None, unwindset=None, cost=10, family=None, optional=False, canary_from=None, split=0, loop_contracts=True, drop_checks=(), plain_loop_contracts=False, fallback_plain=None, tdefs=None, ttimeout=None, tunwind=None, remove_bodies=(), replace_calls=()):
+                 expect_fail=(), src=None, unwindset=None, cost=10, family=None, optional=False, canary_from=None, split=0, loop_contracts=True, drop_checks=(), plain_loop_contracts=False, fallback_plain=None, tdefs=None, ttimeout=None, tunwind=None, remove_bodies=(), replace_calls=(), malloc_may_fail=True):
         self.name = name; self.driver = driver; self.entry = entry
         self.enforce = enforce; self.replace = list(replace); self.mode = mode
         self.unwind = unwind; self.label = label; self.defines = dict(defines or {})
@@ -46,6 +46,7 @@ class Job:
         self.maxw = maxw; self.expect_fail = list(expect_fail); self.src = src
         self.unwindset = unwindset; self.cost = cost; self.family = family; self.optional = optional; self.canary_from = canary_from; self.split = split; self.loop_contracts = loop_contracts; self.drop_checks = tuple(drop_checks); self.plain_loop_contracts = plain_loop_contracts; self.fallback_plain = fallback_plain
         self.tdefs = dict(tdefs or {}); self.ttimeout = ttimeout; self.tunwind = tunwind
+        self.malloc_may_fail = malloc_may_fail   # False: allocations succeed (stated in the job note); the allocation-failure paths are then not decided
         self.replace_calls = list(replace_calls)   # plain mode: calls of f redirected to an executable contract g (goto-instrument --replace-calls f:g); f is checked against the same contract by its own job
         self.remove_bodies = list(remove_bodies)   # plain mode: callees whose bodies are dropped (nondeterministic result, no side effect: an ASSUMPTION listed in the evidence)
 
@@ -162,7 +163,7 @@ def instrument(job, inp, out, loop_contracts=True):
 
 
 def cbmc_cmd(job, binary, solver, props=None, trace=False, unwind=None, unwinding_assertions=True):
-    cmd = ["cbmc"] + MALLOC_FLAGS + [f for f in CHECK_FLAGS if f not in job.drop_checks] + ["--json-ui"]
+    cmd = ["cbmc"] + (MALLOC_FLAGS if getattr(job, "malloc_may_fail", True) else ["--no-malloc-may-fail"]) + [f for f in CHECK_FLAGS if f not in job.drop_checks] + ["--json-ui"]
     if job.mode != "contract":
         cmd.append("--drop-unused-functions")   # plain harness: only obligations reachable from the entry point
     if solver == "z3":
@@ -402,7 +403,7 @@ def execute(job, tier, builddir, maxw, solver, log):
                     canary_id = p["name"]
     except Exception:
         pass
-    ccmd = ["cbmc"] + MALLOC_FLAGS + ["--no-standard-checks", "--slice-formula", "--sat-solver", "cadical", "--json-ui",
+    ccmd = ["cbmc"] + (MALLOC_FLAGS if getattr(job, "malloc_may_fail", True) else ["--no-malloc-may-fail"]) + ["--no-standard-checks", "--slice-formula", "--sat-solver", "cadical", "--json-ui",
                                       "--property", canary_id]
     if job.objbits:
         ccmd += ["--object-bits", str(job.objbits)]
